@@ -66,7 +66,7 @@ def find_function_ex(text, name, occurrence=0):
     """Locate the definition of function `name` (possibly `Class::name`).
     Returns (name_pos, paren_open, body_open, body_close)."""
     m = _mask(text)
-    pat = re.compile(r'(?<![\w:.>])' + re.escape(name) + r'\s*\(')
+    pat = re.compile(r'(?<![\w:.>~])' + re.escape(name) + r'\s*\(')
     found = []
     seen_bodies = set()
     for mo in pat.finditer(m):
@@ -102,7 +102,8 @@ def find_function_ex(text, name, occurrence=0):
             continue
         # reject calls: the token before the name must not make this an expression
         pre = m[:mo.start()].rstrip()
-        if pre.endswith(('=', '(', ',', 'return', '!', '&&', '||', '+', '-', '?', ':')) and not pre.endswith('::'):
+        if pre.endswith(('=', '(', ',', 'return', '!', '&&', '||', '+', '-', '?', ':')) and not pre.endswith('::') \
+                and not re.search(r'\b(public|private|protected)\s*:$', pre):
             # "x = f(...) {" cannot be a definition; ": f(x) {" is a delegating ctor-initialiser
             continue
         if k in seen_bodies:
@@ -278,7 +279,37 @@ def check_ghost(code, extra_calls=()):
             raise InjectError('ghost code calls non-spec function %r' % name)
 
 
-def inject(text, specs, ghost_calls=(), lenient_loops=False):
+def _place_ghost(text, sp, bo, bc, loops, ghost_calls, edits, report, n):
+    func = sp['func']
+    code = sp['ghost']
+    check_ghost(code, tuple(ghost_calls) + tuple(sp.get('calls', ())))
+    at = sp['at']
+    if at == 'func-begin':
+        pos = bo + 1
+    elif at in ('body-begin', 'body-end'):
+        k = sp['loop']
+        if k >= len(loops):
+            raise InjectError('%s has %d loops, wanted #%d' % (func, len(loops), k))
+        lp = loops[k]
+        if lp.body_open is None:
+            raise InjectError('%s#%d has no block body' % (func, k))
+        pos = lp.body_open + 1 if at == 'body-begin' else lp.body_close
+    elif at in ('before', 'after'):
+        anchor = sp['anchor']
+        body = text[bo:bc]
+        cnt = body.count(anchor)
+        if cnt != 1:
+            raise InjectError('anchor %r occurs %d times in %s' % (anchor, cnt, func))
+        pos = bo + body.index(anchor)
+        if at == 'after':
+            pos += len(anchor)
+    else:
+        raise InjectError('bad ghost position %r' % at)
+    edits.append((pos, n, ' /*ghost*/ ' + code + ' '))
+    report.append({'func': func, 'ghost': code, 'at': at, 'loop': sp.get('loop'), 'anchor': sp.get('anchor')})
+
+
+def inject(text, specs, ghost_calls=(), lenient_loops=False, lenient_ghost=False):
     """specs: list of dicts
          {func, loop, [occurrence], assigns:str|None, invariants:[str], decreases:str|None}
          {func, ghost: code, at: 'func-begin'|'body-begin'|'body-end' (+loop) |
@@ -292,11 +323,20 @@ def inject(text, specs, ghost_calls=(), lenient_loops=False):
         try:
             (bo, bc), loops = loops_of(text, func, occ)
         except InjectError:
-            if lenient_loops and 'ghost' not in sp:
+            if (lenient_loops and 'ghost' not in sp) or (lenient_ghost and 'ghost' in sp):
                 report.append({'func': func, 'loop': sp.get('loop'), 'dropped': 'function not found (fallback run)'})
                 continue
             raise
+        if 'ghost' in sp and lenient_ghost:
+            try:
+                _place_ghost(text, sp, bo, bc, loops, ghost_calls, edits, report, n)
+            except InjectError as e:
+                report.append({'func': func, 'ghost': sp['ghost'], 'dropped': 'ghost anchor does not match (ghost-free fallback run): %s' % e})
+            continue
         if 'ghost' in sp:
+            _place_ghost(text, sp, bo, bc, loops, ghost_calls, edits, report, n)
+            continue
+        if False:
             code = sp['ghost']
             check_ghost(code, tuple(ghost_calls) + tuple(sp.get('calls', ())))
             at = sp['at']
